@@ -134,6 +134,9 @@ def execute(hb, sb, items, workdir):
         _materialise(os.path.join(root, "P"), TREES["P"], cont)
         _materialise(os.path.join(root, "E"), TREES["E"], cont)
         _materialise(os.path.join(root, "Vault.sol"), TREES["S"], cont)
+        # what a project directory holds besides contracts, in the working directory and in every analysed directory
+        for furnished in (work, os.path.join(root, "P"), os.path.join(root, "P", "lib.sol"), os.path.join(root, "E"), os.path.join(root, "Vault.sol")):
+            bindrive.furnish(furnished)
         reports = os.path.join(scratch, "reports")
         os.makedirs(reports)
         cdir = os.path.join(work, "contracts")
@@ -144,6 +147,7 @@ def execute(hb, sb, items, workdir):
             inp = b["inp"]
             if inp["contracts"] and not os.path.isdir(cdir):
                 _materialise(cdir, TREES["contracts"], cont)
+                bindrive.furnish(cdir)
             if not inp["contracts"] and os.path.isdir(cdir):
                 shutil.rmtree(cdir)
             if os.path.exists(rpath):
